@@ -21,6 +21,12 @@ Record cls := {
    default_dialect = <default dialect of the compiling builder> -- NOT its Config.dialect, NOT its
    call dialect (kernel K14).  Arguments: the compiling builder's default dialect, dialect, Config.dialect *)
 Definition pass_dd (builder_dd builder_dialect cfg_dialect: option ns) : option ns := builder_dd.
+(* ... and dialect = None when the compiling builder belongs to a mixin class (is_nailed): a nested
+   class met for the first time inside a dialect-specific method still gets its DEFAULT method, so a
+   call dialect reaches it only through the forwarded `dialect=` keyword (flag enabled on both);
+   codec builders hand their dialect down *)
+Definition pass_dialect (nailed: bool) (builder_dialect: option ns) : option ns :=
+  if nailed then None else builder_dialect.
 
 (* keyword arguments received by a to_dict call *)
 Record kwv := { kw_on : option bool; kw_ba : option bool; kw_dl : option ns }.
